@@ -304,7 +304,15 @@ impl<'a> Run<'a> {
             };
             // serialised sizes of all documents of the segment (deleted ones included) and the
             // size of the data part: lets the judge compare the layout with Store!Cut (informative)
-            let sizes: Vec<usize> = (0..sr.max_doc()).map(|d| store.get_document_bytes(d).map(|b| b.len()).unwrap_or(0)).collect();
+            let sizes: Vec<usize> = match catch_unwind(AssertUnwindSafe(|| {
+                (0..sr.max_doc()).map(|d| store.get_document_bytes(d).map(|b| b.len()).unwrap_or(0)).collect::<Vec<usize>>()
+            })) {
+                Ok(v) => v,
+                Err(_) => {
+                    self.tracer.emit(json!({"ev":"panic","in":"get_document_bytes","phase":phase}));
+                    vec![]
+                }
+            };
             let oob = match catch_unwind(AssertUnwindSafe(|| store.get::<TantivyDocument>(sr.max_doc()))) {
                 Ok(Ok(_)) => "ok",
                 Ok(Err(_)) => "err",
@@ -325,7 +333,7 @@ fn run_case(tracer: &Tracer, f: &Fields, case: &Value) {
         docstore_compress_dedicated_thread: cfg["thread"].as_bool().unwrap_or(true),
         ..Default::default()
     };
-    let index = Index::builder().schema(f.schema.clone()).settings(settings).create_in_ram().expect("index");
+    let mut index = Index::builder().schema(f.schema.clone()).settings(settings).create_in_ram().expect("index");
     let mut w: IndexWriter = index.writer_with_num_threads(1, 20_000_000).expect("writer");
     w.set_merge_policy(Box::new(NoMergePolicy));
     let mut id = 0u64;
@@ -368,11 +376,22 @@ fn run_case(tracer: &Tracer, f: &Fields, case: &Value) {
         run.observe("delete");
     }
     if case["merge"].as_bool().unwrap_or(false) {
+        // optionally the docstore compressor of the index is changed before the merge (the older
+        // segments keep their codec): a new writer is created on the index with the new settings
+        let mut comp_now = cfg["comp"].as_str().unwrap_or("lz4").to_string();
+        if let Some(mc) = case.get("merge_comp").and_then(|x| x.as_str()) {
+            let _ = w.wait_merging_threads();
+            index.settings_mut().docstore_compression = if mc == "none" { Compressor::None } else { Compressor::Lz4 };
+            w = index.writer_with_num_threads(1, 20_000_000).expect("writer");
+            w.set_merge_policy(Box::new(NoMergePolicy));
+            run.index = index.clone();
+            comp_now = mc.to_string();
+        }
         let ids = index.searchable_segment_ids().unwrap();
         // merge in the order of creation (meta.json order is a hash order): sort by the first stored id
         if !ids.is_empty() {
             let r = w.merge(&ids).wait();
-            tracer.emit(json!({"ev":"merged","ok":r.is_ok(),"n":ids.len()}));
+            tracer.emit(json!({"ev":"merged","ok":r.is_ok(),"n":ids.len(),"comp":comp_now}));
             run.observe("merge");
         }
     }
@@ -397,7 +416,10 @@ fn main() {
             continue;
         }
         let case: Value = serde_json::from_str(&line).expect("case json");
+        tracer.emit(json!({"ev":"begin","case":case["id"]}));
+        tracer.flush();
         run_case(&tracer, &f, &case);
+        tracer.flush();
     }
     tracer.flush();
 }
